@@ -470,9 +470,14 @@ def oracle_seq(case, res=None):
                 # the copy has the default filters again (__setstate__): it must render like the original
                 try:
                     t2 = pickle.loads(blob)
-                    got = drain(t2.generate(**G.build_data(datas[0])))
                 except Exception as e:  # noqa
+                    t2 = None
                     got = ([], 'unpickle-' + errname(e))
+                if t2 is not None:
+                    try:
+                        got = drain(t2.generate(**G.build_data(datas[0])))
+                    except Exception as e:  # noqa
+                        got = ([], 'generate-' + errname(e))
                 cmp_render(case, 'op %d pickle: the unpickled copy renders like a fresh object' % n, got, expected(0), fails)
         elif name == 'load':
             if b.loader is not None:
@@ -699,6 +704,20 @@ def oracle_case(case, res=None):
     if kind == 'interleave':
         return oracle_interleave(case, res, with_foot=False)[0]
     if kind == 'threads':
+        if case.get('preempt_scan'):
+            # "some preemption point inside this function breaks it": try each line of the function as the
+            # point where the other threads run to completion (robust against edits that move lines)
+            th, fn, maxn = case['preempt_scan']
+            for n in range(1, maxn + 1):
+                c2 = dict(case)
+                c2['preempt'] = [[th, fn, n]]
+                f = oracle_threads(c2, res)
+                if f:
+                    for x in f:
+                        x['case'] = case
+                        x['what'] += ' (preempted before line %d of %s)' % (n, fn)
+                    return f
+            return []
         return oracle_threads(case, res)
     raise ValueError(kind)
 
